@@ -258,6 +258,220 @@ pub fn corpus(ctx: &Ctx, n: usize) -> Vec<SStep> {
     steps
 }
 
+// ───────────────────────── through the REAL connection handler (hook H1) ─────────────────────────
+// The same frame lists as ONE pipeline on ONE connection: `verif_hooks::run_connection` runs the real
+// `OptimizedConnectionHandler` on a scripted in-memory stream (generated read segmentation, generated
+// partial-write sizes, generated batching configuration) over a real N-shard `ShardedActorState`.
+// Model: `Props/ServerConn.lean` (`node_end_to_end`), driver op `SRVC`.  The server built by the hook
+// reads the WALL clock, so these pipelines are time-free: no command that sets or reads a deadline
+// (the timed frames stay with the `SRV` lines above); they contain only ANSWERED frames (commands of
+// the composed model and frames the parser rejects).  The written stream is decoded into replies
+// (exactly one per frame, no byte left over — else the raw bytes are reported), each canonicalised as
+// for `SRV` (order inside unordered replies, executor error text by class) and re-encoded.
+
+pub struct Pipe {
+    segs: std::collections::VecDeque<Vec<u8>>,
+    written: std::sync::Arc<std::sync::Mutex<Vec<u8>>>,
+    /// how many bytes successive poll_write calls take (exhausted: everything)
+    takes: std::collections::VecDeque<usize>,
+}
+
+impl tokio::io::AsyncRead for Pipe {
+    fn poll_read(mut self: std::pin::Pin<&mut Self>, _cx: &mut std::task::Context<'_>, buf: &mut tokio::io::ReadBuf<'_>) -> std::task::Poll<std::io::Result<()>> {
+        if let Some(mut seg) = self.segs.pop_front() {
+            let n = seg.len().min(buf.remaining());
+            buf.put_slice(&seg[..n]);
+            if n < seg.len() {
+                let rest = seg.split_off(n);
+                self.segs.push_front(rest);
+            }
+        }
+        std::task::Poll::Ready(Ok(())) // no segment left: EOF
+    }
+}
+
+impl tokio::io::AsyncWrite for Pipe {
+    fn poll_write(mut self: std::pin::Pin<&mut Self>, _cx: &mut std::task::Context<'_>, buf: &[u8]) -> std::task::Poll<std::io::Result<usize>> {
+        let n = match self.takes.pop_front() {
+            Some(k) => k.max(1).min(buf.len()),
+            None => buf.len(),
+        };
+        self.written.lock().unwrap().extend_from_slice(&buf[..n]);
+        std::task::Poll::Ready(Ok(n))
+    }
+    fn poll_flush(self: std::pin::Pin<&mut Self>, _cx: &mut std::task::Context<'_>) -> std::task::Poll<std::io::Result<()>> {
+        std::task::Poll::Ready(Ok(()))
+    }
+    fn poll_shutdown(self: std::pin::Pin<&mut Self>, _cx: &mut std::task::Context<'_>) -> std::task::Poll<std::io::Result<()>> {
+        std::task::Poll::Ready(Ok(()))
+    }
+}
+
+fn time_free(c: &Command) -> bool {
+    !matches!(
+        c,
+        Command::Set { ex: Some(_), .. } | Command::Set { px: Some(_), .. } | Command::Set { exat: Some(_), .. } | Command::Set { pxat: Some(_), .. }
+            | Command::Expire { .. } | Command::PExpire { .. } | Command::ExpireAt(..) | Command::PExpireAt(..) | Command::GetEx { .. }
+    )
+}
+
+/// a pipeline of answered, time-free frames
+pub fn random_pipeline(ctx: &Ctx, rng: &mut Rng, n: usize) -> Vec<Vec<Vec<u8>>> {
+    let mut fs = Vec::new();
+    let len = rng.range(3, 40);
+    let mut tries = 0;
+    while (fs.len() as u64) < len && tries < 4000 {
+        tries += 1;
+        let t = *rng.pick(TEMPLATES);
+        let f = fill(rng, t, BASE_MS, ctx, n);
+        match parse(&f) {
+            Ok(Ok(cmd)) => {
+                if !inside(&cmd) || !admissible(&cmd) || !same_shard(ctx, n, &cmd) || !time_free(&cmd) {
+                    continue;
+                }
+            }
+            Ok(Err(_)) => {}
+            Err(_) => continue,
+        }
+        // a command NAME that is empty / white space only panics the handler (C04 finding): never generated here
+        fs.push(f);
+    }
+    fs
+}
+
+/// every time-free template once, in order, as ONE pipeline
+pub fn corpus_pipeline(ctx: &Ctx, n: usize) -> Vec<Vec<Vec<u8>>> {
+    let mut rng = Rng::new(0x5EC);
+    let w = |s: &str| -> Vec<Vec<u8>> { s.split(' ').map(|x| x.as_bytes().to_vec()).collect() };
+    let mut fs = vec![w("SET a 10"), w("RPUSH b 3 1 2"), w("SADD c m n"), w("HSET kk f 5"), w("ZADD é 1 a 2 b")];
+    for tpl in TEMPLATES {
+        let f = fill(&mut rng, tpl, BASE_MS, ctx, n);
+        match parse(&f) {
+            Ok(Ok(cmd)) => {
+                if !inside(&cmd) || !admissible(&cmd) || !same_shard(ctx, n, &cmd) || !time_free(&cmd) {
+                    continue;
+                }
+            }
+            Ok(Err(_)) => {}
+            Err(_) => continue,
+        }
+        fs.push(f);
+    }
+    fs
+}
+
+fn canon_stream(written: &[u8], frames: &[Vec<Vec<u8>>]) -> String {
+    let mut pos = 0;
+    let mut out: Vec<u8> = Vec::new();
+    for f in frames {
+        if pos >= written.len() {
+            return format!("short:{}", hex(written));
+        }
+        match redis_sim::redis::RespParser::parse(&written[pos..]) {
+            Ok((v, used)) => {
+                pos += used;
+                let v = match parse(f) {
+                    Ok(Ok(cmd)) => canon(&cmd, v),
+                    _ => v,
+                };
+                out.extend_from_slice(&encode_reply(&v));
+            }
+            Err(e) => return format!("undecodable:{}:{}", e, hex(written)),
+        }
+    }
+    if pos != written.len() {
+        return format!("surplus:{}", hex(written));
+    }
+    hex(&out)
+}
+
+pub struct ConnCfg {
+    pub min_pipeline: usize,
+    pub batch_threshold: usize,
+    pub read_size: usize,
+}
+
+async fn conn_on(n: usize, frames: &[Vec<Vec<u8>>], segs: &[Vec<u8>], takes: &[usize], cfg: &ConnCfg, universe: &[String]) -> (String, String) {
+    use redis_sim::production::{PerformanceConfig, ShardedActorState};
+    let mut pc = PerformanceConfig::default();
+    pc.buffers.read_size = cfg.read_size;
+    pc.batching.min_pipeline_buffer = cfg.min_pipeline;
+    pc.batching.batch_threshold = cfg.batch_threshold;
+    if let Err(e) = pc.validate() {
+        return (format!("config-rejected:{}", e), String::new());
+    }
+    let ccfg = redis_sim::production::ConnectionConfig::from_perf_config(&pc.buffers, &pc.batching);
+    let state = ShardedActorState::with_shards(n);
+    let written = std::sync::Arc::new(std::sync::Mutex::new(Vec::new()));
+    let pipe = Pipe { segs: segs.iter().cloned().collect(), written: written.clone(), takes: takes.iter().cloned().collect() };
+    let r = tokio::time::timeout(std::time::Duration::from_secs(10), redis_sim::production::verif_hooks::run_connection(pipe, state.clone(), ccfg)).await;
+    if r.is_err() {
+        return ("hang".into(), String::new());
+    }
+    let w = written.lock().unwrap().clone();
+    (canon_stream(&w, frames), dump7(&state, universe).await)
+}
+
+pub async fn run_conn(out: &mut Out, pend: &mut Vec<Pending>, ctx: &Ctx, rng: &mut Rng, n: usize, frames: &[Vec<Vec<u8>>]) {
+    let universe: Vec<String> = KEYS.iter().map(|k| k.to_string()).collect();
+    let stream: Vec<u8> = frames.iter().flat_map(|f| resp_bytes(f).to_vec()).collect();
+    // read segmentation: cut points anywhere (inside frames, inside CR LF), 0..8 cuts, or byte by byte
+    let segs: Vec<Vec<u8>> = if rng.chance(1, 10) && stream.len() < 400 {
+        stream.iter().map(|b| vec![*b]).collect()
+    } else {
+        let mut cuts: Vec<usize> = (0..rng.below(9)).map(|_| rng.below(stream.len() as u64 + 1) as usize).collect();
+        cuts.sort();
+        cuts.dedup();
+        let mut v = Vec::new();
+        let mut last = 0;
+        for c in cuts {
+            if c > last {
+                v.push(stream[last..c].to_vec());
+                last = c;
+            }
+        }
+        v.push(stream[last..].to_vec());
+        v
+    };
+    let takes: Vec<usize> = (0..rng.below(12)).map(|_| *rng.pick(&[1usize, 1, 2, 3, 7, 64, 1000])).collect();
+    let cfg = ConnCfg { min_pipeline: *rng.pick(&[1usize, 16, 60, 200]), batch_threshold: *rng.pick(&[1usize, 2, 3, 8]), read_size: *rng.pick(&[16usize, 64, 8192]) };
+    let start = out.n_ops();
+    let (w1, d1) = conn_on(1, frames, &segs, &takes, &cfg, &universe).await;
+    let (wn, dn) = conn_on(n, frames, &segs, &takes, &cfg, &universe).await;
+    let mut l = format!("SRVC {} {}", BASE_MS, frames.len());
+    for f in frames {
+        l.push_str(&format!(" {}", f.len()));
+        for a in f {
+            l.push(' ');
+            l.push_str(&hex(a));
+        }
+    }
+    for (shards, w, d) in [(1usize, &w1, &d1), (n, &wn, &dn)] {
+        let mut m = format!("M7NEW {} {}", shards, universe.len());
+        for k in &universe {
+            m.push_str(&format!(" {} {}", hex(k.as_bytes()), ctx.gen(k.as_bytes(), shards)));
+        }
+        out.op(m, "ok".into());
+        out.op(l.clone(), w.clone());
+        out.op(format!("M7DUMP {}", BASE_MS), d.clone());
+    }
+    out.count("class:srvc");
+    out.count(&format!("srvc:segments:{}", if segs.len() > 20 { "byte-by-byte".to_string() } else { segs.len().to_string() }));
+    out.count(&format!("srvc:partial-writes:{}", takes.len().min(3)));
+    out.count(&format!("srvc:min_pipeline={}", cfg.min_pipeline));
+    out.count(&format!("srvc:batch_threshold={}", cfg.batch_threshold));
+    out.count(&format!("srvc:read_size={}", cfg.read_size));
+    out.count_n("srvc:frames", frames.len() as u64);
+    let diverged = if w1 != wn || d1 != dn {
+        Some(("SRVC".to_string(), format!("{} shards write {} / end with {} where one shard writes {} / ends with {}", n, wn, dn, w1, d1), json!({"shards": n, "op": l, "segments": segs.iter().map(|s| hex(s)).collect::<Vec<_>>(), "takes": takes})))
+    } else {
+        None
+    };
+    pend.push(Pending::new(start, out.n_ops(), "srvc", None, diverged, n));
+    out.case(&format!("srvc|{}|{}|{:?}|{:?}", n, l, segs.len(), takes), frames.len() >= 3 && segs.len() >= 2);
+    out.sample(json!({"shards": n, "class": "srvc", "frames": frames.len(), "segments": segs.len(), "partial_write_sizes": takes, "min_pipeline": cfg.min_pipeline, "batch_threshold": cfg.batch_threshold, "read_size": cfg.read_size}));
+}
+
 pub async fn run_steps(out: &mut Out, pend: &mut Vec<Pending>, ctx: &Ctx, n: usize, label: &str, steps: &[SStep]) {
     let universe: Vec<String> = KEYS.iter().map(|k| k.to_string()).collect();
     let start = out.n_ops();
